@@ -40,7 +40,8 @@ def _mk(name, ws, attrs, kids):
 
 
 def attr_values():
-    return st.one_of(gen.any_text(), gen.numbers(), st.just(True), st.sampled_from(["", " ", "a b"]))
+    long_ = st.builds(lambda s, k: (s or "v") * k, gen.safe_text(1, 6), st.integers(10, 40))  # wide opening tags
+    return st.one_of(gen.any_text(), gen.any_text(), gen.numbers(), st.just(True), st.sampled_from(["", " ", "a b"]), long_)
 
 
 def element_strategy():
@@ -48,6 +49,7 @@ def element_strategy():
         st.sampled_from(gen.catalogue_names() + ["command", "keygen"]),
         st.sampled_from(list(gen.VOID)),
         st.sampled_from(gen.BLOCK_NAMES + gen.INLINE_NAMES),
+        st.sampled_from(gen.RAWISH_NAMES),
         gen.CUSTOM_NAME.map(_fix_name),
     )
     attrs = st.lists(st.tuples(gen.attr_raw_names(), attr_values()).map(list), max_size=4)
@@ -67,6 +69,15 @@ def case_strategy():
             "roots": st.lists(element_strategy(), min_size=1, max_size=2),
             "indent": st.integers(0, 5),
             "eol": st.sampled_from(EOLS),
+            "edits": st.lists(
+                st.one_of(
+                    st.tuples(st.sampled_from(["pop", "del", "popitem", "clear"]), st.integers(0, 5)).map(list),
+                    st.tuples(st.just("set"), gen.attr_raw_names(), attr_values()).map(list),
+                    st.tuples(st.just("append"), gen.any_text()).map(list),
+                    st.tuples(st.just("remove_class"), st.sampled_from(["a", "b"])).map(list),
+                ),
+                max_size=3,
+            ),
         }
     )
 
@@ -189,6 +200,35 @@ def body_tree(case, note):
     eall = normalise_expected([e for ev in exp_each for e in ev])
     tl = htmltools.TagList(*objs)
     compare("TagList.get_html_string(%d,%r)" % (indent, eol), tl.get_html_string(indent, eol), eall)
+    # the same tag object rendered again after attribute removals / additions and a new child
+    r0 = roots[0]
+    edited = False
+    for ed in case.get("edits", []):
+        names = list(tag.attrs.keys())
+        if ed[0] in ("pop", "del") and names:
+            k = names[ed[1] % len(names)]
+            if ed[0] == "pop":
+                tag.attrs.pop(k)
+            else:
+                del tag.attrs[k]
+        elif ed[0] == "popitem" and names:
+            tag.attrs.popitem()
+        elif ed[0] == "clear":
+            tag.attrs.clear()
+        elif ed[0] == "set":
+            tag.attrs[ed[1]] = ed[2]
+        elif ed[0] == "remove_class":
+            tag.remove_class(ed[1])
+        elif ed[0] == "append" and r0["name"].lower() not in RAW:
+            tag.append(ed[1])
+            r0 = dict(r0, kids=r0["kids"] + [{"k": "text", "s": ed[1]}])
+        else:
+            continue
+        edited = True
+        ev = []
+        expected_events(r0, tag, ev)
+        compare("Tag.get_html_string after %s" % ed[0], tag.get_html_string(indent, eol), normalise_expected(ev))
+        compare("str(tag) after %s" % ed[0], str(tag), normalise_expected(ev))
     n = void = ma = mt = d = 0
     for r in roots:
         s = _stats(r)
@@ -204,6 +244,7 @@ def body_tree(case, note):
         "text-metachar" if mt else "",
         "depth>=3" if d >= 3 else "",
         "multi-root" if len(roots) > 1 else "",
+        "re-rendered-after-edit" if edited else "",
     )
 
 
@@ -341,7 +382,7 @@ CLAUSES = [
         quick=1500,
         thorough=20000,
         shards_quick=4,
-        required=("void", "attr-metachar", "text-metachar", "depth>=3"),
+        required=("void", "attr-metachar", "text-metachar", "depth>=3", "re-rendered-after-edit"),
         rule="see RULE",
         fuzz=100000,
     ),
